@@ -659,6 +659,48 @@ def check_fmap_compose(d1, d2, P, acc):
 
 
 # ----------------------------------------------------------------------------- shards
+def check_locations(P, acc):
+    """maps built from (start, end) locations, including locations that reach beyond the end of the parent: the part
+    inside the parent is kept, the overhang is lost, and nothing points outside the parent"""
+    from cogent3.core.location import FeatureMap, IndelMap
+
+    singles = [(a, b) for a in range(P + 1) for b in range(a, P + 3)]
+    pairs = [(x, y) for x in singles for y in singles if x[1] <= y[0] and x[1] <= P]
+    for locs in [[x] for x in singles] + [list(xy) for xy in pairs]:
+        case = {"kind": "locations", "P": P, "locations": [list(x) for x in locs]}
+        acc.case(("from_locations", P, tuple(locs)), nontrivial=any(b > P for a, b in locs))
+        want = [p if p < P else None for a, b in locs for p in range(a, b)]
+        try:
+            fm = FeatureMap.from_locations(locations=[tuple(x) for x in locs], parent_length=P)
+            got = table_of_map(fm)
+            cls = "location reaching beyond the parent" if any(b > P for a, b in locs) else "locations inside the parent"
+            if any((not sp.lost) and not (0 <= sp.start <= sp.end <= P) for sp in fm.spans):
+                acc.fail(f"FeatureMap.from_locations: coordinates outside parent [{cls}]", case, {"spans": str(list(fm.spans))})
+            elif got != want or len(fm) != len(want):
+                acc.fail(f"FeatureMap.from_locations: positions [{cls}]", case, {"got": got, "len": len(fm), "want": want})
+            elif any(b > P for a, b in locs):
+                # the operations that read coordinates back
+                cov = fm.get_covering_span()
+                rev = fm.nucleic_reversed()
+                coords = [tuple(int(v) for v in c) for c in fm.get_coordinates()]
+                if any(not (0 <= a <= b <= P) for a, b in coords) or table_of_map(cov) and max(p for p in table_of_map(cov) if p is not None) >= P:
+                    acc.fail(f"FeatureMap from an overhanging location: get_coordinates / get_covering_span outside parent", case, {"coords": coords})
+                if sorted(p for p in table_of_map(rev) if p is not None) != sorted(P - 1 - p for p in want if p is not None):
+                    acc.fail("FeatureMap from an overhanging location: nucleic_reversed positions", case, {"got": table_of_map(rev)})
+        except Exception as e:  # noqa: BLE001
+            acc.fail(f"FeatureMap.from_locations / readers raised {type(e).__name__} [location start within the parent]", case, {"error": str(e)[:200]})
+        acc.outcome(("loc", len(want), want.count(None)))
+        # the same locations as the ungapped segments of an indel map (gaps between and after them)
+        if all(a < b for a, b in locs) and all(b <= P for a, b in locs[:-1]):
+            try:
+                im = IndelMap.from_locations(locations=[tuple(x) for x in locs], parent_length=P)
+                if len(im) < 0 or any(int(g) > P for g, _ in im.get_gap_coordinates()):
+                    acc.fail("IndelMap.from_locations: gap position outside parent", case, {"gaps": str(im.get_gap_coordinates())})
+            except Exception as e:  # noqa: BLE001
+                acc.fail(f"IndelMap.from_locations raised {type(e).__name__} [{'location reaching beyond the parent' if any(b > P for a, b in locs) else 'locations inside the parent'}]", case, {"error": str(e)[:200]})
+    acc.sample({"from_locations": True, "P": P, "location lists": len(singles) + len(pairs)}, "locations")
+
+
 def shards(tier, seed):
     b = bounds(tier)
     out = []
@@ -680,6 +722,7 @@ def shards(tier, seed):
                 out.append({"part": "fmap", "P": P, "k": k, "chunk": c, "of": nchunks})
     for P in range(1, min(b["fmap_parent"], 4) + 1):
         out.append({"part": "compose", "P": P})
+        out.append({"part": "locations", "P": P})
     return out
 
 
@@ -703,6 +746,8 @@ def run_shard(spec, acc):
         for i, desc in enumerate(itertools.product(all_spans(P), repeat=k)):
             if i % spec["of"] == spec["chunk"]:
                 check_fmap(desc, P, acc)
+    elif part == "locations":
+        check_locations(spec["P"], acc)
     elif part == "compose":
         P = spec["P"]
         for d1 in itertools.chain.from_iterable(itertools.product(all_spans(P), repeat=k) for k in (1, 2)):
@@ -715,7 +760,9 @@ def replay(case):
     from vf.kernel.runner import Acc
 
     acc = Acc()
-    if case.get("kind") == "fmap":
+    if case.get("kind") == "locations":
+        check_locations(case["P"], acc)
+    elif case.get("kind") == "fmap":
         desc = [tuple(d) for d in case["desc"]]
         if case["op"] == "__getitem__(map)":
             check_fmap_compose(desc, [tuple(d) for d in case["arg"]], case["P"], acc)
